@@ -77,6 +77,8 @@ def check_table(run, rule, f, cfg, dialect, name, tab):
         return 0
     enum = tab["enum"]
     if enum not in f.adts:
+        if "::extension::" not in enum:      # extension enums exist only with their backend's cargo feature
+            run.anchor(rule, "table:%s" % name, "enum %s of specs/keywords.json not found" % enum, cfg)
         return 0
     trait = TRAITS[tab["trait"]]
     exp = tab["expect"].get(dialect, {})
